@@ -285,6 +285,11 @@ def param_list(ctx, pairs):
                         # a full batch (and one more) in flight, then a hang-up half a heartbeat later
                         ps.append(dict(base_p, c2s=0, s2c=17, atonce=True, idle=0.5, disconnect=who))
                         ps.append(dict(base_p, c2s=16, s2c=16, atonce=True, idle=0.5, disconnect=who))
+    # a heartbeat slower than every timeout the client uses on its own (the threaded client's request_timeout is 5 s): the idle
+    # connection lasts, upgraded or opened over WebSocket
+    for c, s in pairs:
+        for tr in (None, ['websocket'], ['polling']):
+            ps.append({'client': c, 'server': s, 'transports': tr, 'heartbeat': [6.0, 1.0], 'c2s': 1, 's2c': 1, 'idle': 2})
     return ps
 
 
